@@ -714,9 +714,47 @@ func checkApplySlice(w *World, r *Report) {
 		return w.up(ia.X), w.up(ia.Index), true
 	}
 	n := 0
+	nCopy := 0
 	for _, f := range fns {
 		for _, c := range callInstrs(f) {
 			name := staticCalleeShort(c.Common())
+			if bi, isB := c.Common().Value.(*ssa.Builtin); isB && bi.Name() == "copy" && len(c.Common().Args) == 2 {
+				// a copy into an output row is a kernel too: same range on both sides
+				nCopy++
+				key := fmt.Sprintf("applyMatrixSlice:copy#%d", nCopy-1)
+				okRange := func(v ssa.Value, wantBase ssa.Value) bool {
+					sl, ok := w.up(v).(*ssa.Slice)
+					if !ok || sl.Low == nil || sl.High == nil || w.up(sl.Low) != dataStart || w.up(sl.High) != dataEnd {
+						return false
+					}
+					base, _, ok := rowOf(sl.X)
+					for k := 0; ok && k < 3; k++ {
+						rs, isSl := base.(*ssa.Slice)
+						if !isSl {
+							break
+						}
+						base = w.up(rs.X)
+					}
+					return ok && base == wantBase
+				}
+				a := c.Common().Args
+				touchesOut := false
+				backSlice(a[0], func(v ssa.Value) bool {
+					if w.up(v) == out {
+						touchesOut = true
+					}
+					return !touchesOut
+				})
+				if !touchesOut {
+					continue
+				}
+				if okRange(a[0], out) && okRange(a[1], in) {
+					r.ok("RACE", key, w.ipos(c), "copy(out[i][dataStart:dataEnd], in[j][dataStart:dataEnd])")
+				} else {
+					r.bad("RACE", key, w.ipos(c), "a copy into an output row does not take the worker's own range [dataStart:dataEnd) on both sides: every worker but the first writes bytes that belong to another part of the shard")
+				}
+				continue
+			}
 			if strings.HasPrefix(name, "(gf2p16.Matrix).At") || name == "" {
 				if _, isB := c.Common().Value.(*ssa.Builtin); isB || name != "" {
 					continue
